@@ -77,7 +77,7 @@ struct C12 {
   }
 };
 
-void case_impl(Ctx &c, bool ext) {
+void case_impl(Ctx &c, bool ext, bool runs = false) {
   C12 x(c); Sim &s = x.s; World &w = x.w;
   s.nodeid = (uint8_t)(1 + c.t.below(127));
   w.mandatory();
@@ -117,11 +117,17 @@ void case_impl(Ctx &c, bool ext) {
   SdoClient cl(s, w.req[0], w.rsp[0]);
   if (c.logging) for (int p = 0; p < ntp; p++) { MP &m = x.mp[p]; std::string d; for (size_t i = 0; i < m.objs.size(); i++) d += "obj" + std::to_string(m.objs[i] + 1) + "/" + std::to_string(m.bytes[i]) + " "; VLOG(c, "TPDO %d: id %08X type %u inhibit %u x100us event %u ms map: %s", p, *m.cfg.id, *m.cfg.type, *m.cfg.inhibit, *m.cfg.event, d.c_str()); }
   auto trig_obj_changed = [&](int o) { if (x.mode == 3) for (int p = 0; p < 4; p++) if (x.mp[p].present) for (int k : x.mp[p].objs) if (k == o) { x.tx(p, 0); break; } };
-  int steps = 0, retyped = 0, remapped = 0;
+  bool quiet = false;
+  auto do_sync = [&]() {
+      if (!quiet) VLOG(c, "SYNC"); s.rx(Frame::mk(0x80, 0, {}));
+      if (x.mode == 2 || x.mode == 3) for (int p = 0; p < 4; p++) { MP &m = x.mp[p]; if (m.present && m.insync) for (size_t k = 0; k < m.alt.size(); k++) { Dyn &a = m.alt[k]; a.synccnt++; if (a.synccnt == m.type) { x.tx1(p, a, 3, k == 0); a.synccnt = 0; } } }
+      x.compare("SYNC");
+  };
+  int steps = 0, retyped = 0, remapped = 0; uint32_t longest_run = 0;
   while (!c.t.exhausted() && steps < 200) {
     steps++; c.ops++;
-    static const uint16_t W[12] = {60, 10, 14, 14, 6, 12, 8, 8, 4, 4, 4, 4}, WX[14] = {60, 10, 14, 14, 6, 12, 8, 8, 4, 4, 4, 4, 6, 6};
-    uint32_t op = ext ? c.t.weighted(WX) : c.t.weighted(W);   // mode "random" keeps the alphabet the saved witnesses were recorded with
+    static const uint16_t W[12] = {60, 10, 14, 14, 6, 12, 8, 8, 4, 4, 4, 4}, WX[14] = {60, 10, 14, 14, 6, 12, 8, 8, 4, 4, 4, 4, 6, 6}, WY[15] = {40, 8, 10, 10, 4, 10, 8, 4, 2, 2, 4, 4, 6, 4, 30};
+    uint32_t op = runs ? c.t.weighted(WY) : ext ? c.t.weighted(WX) : c.t.weighted(W);   // mode "random" keeps the alphabet the saved witnesses were recorded with
     s.clear_tx(); s.clear_ev(); for (int p = 0; p < 4; p++) for (auto &a : x.mp[p].alt) a.out.clear();
     if (op == 0) { s.step_tick(); x.tick(); VLOG(c, "tick -> %ld", x.T); x.compare("tick"); }
     else if (op == 1) { uint32_t n = 2 + c.t.below(12); for (uint32_t i = 0; i < n; i++) { s.clear_tx(); s.step_tick(); x.tick(); x.compare("tick"); } VLOG(c, "%u ticks -> %ld", n, x.T); }
@@ -138,9 +144,13 @@ void case_impl(Ctx &c, bool ext) {
       int o = (int)c.t.below(5); VLOG(c, "COTPdoTrigObj(obj%d)", o + 1);
       s.api_begin(); COTPdoTrigObj(s.node->TPdo, s.find(0x2100, (uint8_t)(o + 1))); s.api_end("COTPdoTrigObj"); trig_obj_changed(o); x.compare("object trigger");
     } else if (op == 5) { // SYNC
-      VLOG(c, "SYNC"); s.rx(Frame::mk(0x80, 0, {}));
-      if (x.mode == 2 || x.mode == 3) for (int p = 0; p < 4; p++) { MP &m = x.mp[p]; if (m.present && m.insync) for (size_t k = 0; k < m.alt.size(); k++) { Dyn &a = m.alt[k]; a.synccnt++; if (a.synccnt == m.type) { x.tx1(p, a, 3, k == 0); a.synccnt = 0; } } }
-      x.compare("SYNC");
+      do_sync();
+    } else if (op == 14) { // mode sync-runs: k SYNCs in a row - "every n-th SYNC" must hold beyond the 255th and the 65535th SYNC of one OPERATIONAL phase
+      static const uint32_t MARK[5] = {250, 256, 300, 512, 770}; uint32_t kk = c.t.below(16);
+      uint32_t k = kk < 9 ? MARK[c.t.below(5)] + c.t.below(8) : kk == 9 ? 65530 + c.t.below(600) : 1 + c.t.below(300);
+      VLOG(c, "run of %u SYNCs", k);
+      for (uint32_t i = 0; i < k; i++) { quiet = i >= 2; do_sync(); for (int p = 0; p < 4; p++) for (auto &a : x.mp[p].alt) a.out.clear(); } quiet = false;
+      if (x.mode == 3 && k > longest_run) longest_run = k;
     } else if (op == 6) { // NMT
       int nm = x.mode == 3 ? (c.t.coin() ? 2 : 4) : 3;
       s.rx(Frame::mk(0, 2, {(uint8_t)(nm == 3 ? 1 : nm == 2 ? 128 : 2), 0})); VLOG(c, "NMT -> mode %d", nm);
@@ -217,21 +227,24 @@ void case_impl(Ctx &c, bool ext) {
     }
   }
   if (x.deferred || x.by_event || x.by_sync) c.nontrivial = true;
+  if (longest_run >= 256) c.cls("run-of-256-or-more-syncs-in-operational"); if (longest_run >= 65536) c.cls("run-of-65536-or-more-syncs-in-operational");
   if (retyped) c.cls("transmission-type-rewritten"); if (remapped) c.cls("mapping-rewritten");
   if (x.deferred) c.cls("deferred-by-inhibit"); if (x.by_event) c.cls("sent-by-event-timer"); if (x.by_sync) c.cls("sent-by-sync-count"); if (x.ties) c.cls("inhibit-event-tie-with-pending-trigger");
 }
 
 void one_case(Ctx &c) { case_impl(c, false); }
 void ext_case(Ctx &c) { case_impl(c, true); }
+void runs_case(Ctx &c) { case_impl(c, true, true); }
 
 Registrar reg(Prop{
     "C12",
     "Cases: node id 1..127, 1..4 TPDOs with mappings of 1..5 distinct objects of 1/2/3(24 bit of a 32-bit object)/4 bytes totalling <= 8 bytes, type in {1..240, 254, 255}, inhibit 0..8 ms (non-zero only for 254/255), event time 0..12 ms with inhibit == event ties produced on purpose, valid or invalid COB-ID; "
-    "histories of up to 200 ops: ticks, explicit COTPdoTrigPdo/COTPdoTrigObj, value changes of asynchronous and other objects through API/SDO/RPDO, SYNCs, NMT changes, SDO writes to the event time and to the COB-ID valid bit while running; mode random-retype adds: generated direct/asynchronous/node-id-relative flags of the mapped objects, invalidate the COB-ID, rewrite transmission type and inhibit time - or the whole mapping (count := 0, new entries, count := k) -, re-validate (in PRE-OPERATIONAL or OPERATIONAL), and generates for each of the five objects whether it is stored directly in the entry and whether it carries the asynchronous-trigger flag. "
+    "histories of up to 200 ops: ticks, explicit COTPdoTrigPdo/COTPdoTrigObj, value changes of asynchronous and other objects through API/SDO/RPDO, SYNCs, NMT changes, SDO writes to the event time and to the COB-ID valid bit while running; mode random-retype adds: generated direct/asynchronous/node-id-relative flags of the mapped objects, invalidate the COB-ID, rewrite transmission type and inhibit time - or the whole mapping (count := 0, new entries, count := k) -, re-validate (in PRE-OPERATIONAL or OPERATIONAL), and generates for each of the five objects whether it is stored directly in the entry and whether it carries the asynchronous-trigger flag; mode sync-runs adds runs of 1..300, 250..777 or 65530..66129 consecutive SYNCs. "
     "Oracle: reference schedule: after every op and every single tick the multiset of (identifier, DLC, data) TPDO frames equals the model's (data = little-endian values of the mapped objects at emission; immediate emission on trigger unless inhibited; exactly one deferred emission at inhibit end; event timer restarted by every emission; type n => every n-th SYNC; nothing outside OPERATIONAL or with an invalid COB-ID; ties resolved inhibit first). "
     "Non-trivial: >= 1 emission deferred by the inhibit time or produced by the event timer or by the SYNC count. Distinct = distinct decoded choice sequence.",
     {Mode{"random", one_case, false, 600000, 8000000, 0, 0, 300, 500},
-     Mode{"random-retype", ext_case, false, 1400000, 22000000, 0, 0, 300, 500}},
+     Mode{"random-retype", ext_case, false, 1400000, 22000000, 0, 0, 300, 500},
+     Mode{"sync-runs", runs_case, false, 15000, 300000, 0, 0, 160, 260}},
     {"timer frequency 1000 Hz: inhibit times are multiples of 1 ms (10 x 100 us), event times whole ms",
      "the first event-timer expiry after activation of TPDO number n may fall on any tick in [E, E+n] (the stack staggers start-up by the PDO number; the statement does not fix it): alternatives are tracked per TPDO and dropped when contradicted",
      "a write to the event time while the inhibit time runs: both 'timing restarted, waiting transmission released at once' (what the stack and ut-pdo-event do) and 'inhibit window continues, event timer re-armed' are admitted (alternatives tracked per TPDO)",
